@@ -206,6 +206,8 @@ def run(ck, tier):
     _mp.run(ck, F, 'C04')
     from . import accum as _acc2
     _acc2.run2(ck, F, 'C04')
+    from . import relations as _rel
+    _rel.run(ck, F, 'C04')
     from . import siblings as _sib
     _sib.check(ck, F, 'C04')
     run_agreement(ck, F)
